@@ -5,7 +5,7 @@ import time
 
 VERIF_DIR = os.path.dirname(os.path.dirname(os.path.dirname(os.path.abspath(__file__))))
 KNOWN_FINDINGS = os.path.join(VERIF_DIR, "known_findings.json")
-EVIDENCE_DIR = os.path.join(VERIF_DIR, "evidence")
+EVIDENCE_DIR = os.environ.get("VERIF_EVIDENCE_DIR") or os.path.join(VERIF_DIR, "evidence")
 
 
 class Instance:
@@ -51,6 +51,18 @@ class Report:
         self.notes = []
         self.not_decided = []
         self.counters = {}
+        self.analysis_errors = []
+
+    def section(self, name, func, *args, **kw):
+        """Run one part of a property's analysis; an AnalysisError in it is
+        recorded (exit 2 unless a violation is reported elsewhere) instead of
+        hiding what the other parts found."""
+        from .tree import AnalysisError
+        try:
+            return func(*args, **kw)
+        except AnalysisError as e:
+            self.analysis_errors.append(f"{name}: {e}")
+            return None
 
     def _add(self, verdict, rule, where, construct, detail=None, clause=None):
         module, qualname, line = _where(where)
@@ -146,6 +158,10 @@ def finalize(report, tier, seed, t0, extra_coverage=None, selfval=None, quiet=Fa
                      + (f" -- {_short(inst.detail)}" if inst.detail is not None else ""))
         lines.append(f"VIOLATION property={report.prop_id} replay={path}")
     status = 1 if new_violations else 0
+    for e in report.analysis_errors:
+        lines.append(f"ANALYSIS-ERROR: property={report.prop_id} {e}")
+    if report.analysis_errors and status == 0:
+        status = 2
     if stale and status == 0:
         for k in stale:
             lines.append(f"ANALYSIS-ERROR: property={report.prop_id} known finding is stale "
@@ -177,6 +193,7 @@ def finalize(report, tier, seed, t0, extra_coverage=None, selfval=None, quiet=Fa
         "per_rule": by_rule,
         "functions_analysed": sorted(report.analysed),
         "counters": report.counters,
+        "analysis_errors": report.analysis_errors,
         "not_decided": report.not_decided,
         "notes": report.notes,
         "samples": samples,
